@@ -78,11 +78,17 @@ CLAIMED = {
                  "get_proj_matrix_elems_for_one_bin, verified against assumed contracts of its callees, returns the row the property "
                  "prescribes (basic-bin row, TOF kernel applied iff TOF, transformed by the bin's symmetry operation) in all cache modes, "
                  "hit or miss, and every cache insertion satisfies the cache invariant - hence independence of request history by "
-                 "induction. Loop-free, full-domain proofs. Not decided: equality of float row values, non-negativity, "
-                 "voxel-inside-image/no-duplicates, clear_cache/set_up."),
-        "note": ("assumed contracts: calculate_proj_matrix_elems_for_one_bin, apply_tof_kernel, SymmetryOperation::transform_*, "
-                 "find_symmetry_operation_from_basic_bin (a self-basic bin gets the trivial operation), std::unordered_map; "
-                 "rows are abstract ids; induction over histories is argued, not machine-checked"),
+                 "induction; (c) symmetry bookkeeping, composition of the REAL bodies of find_symmetry_operation_from_basic_bin, "
+                 "find_sym_op_bin0, find_sym_op_general_bin, find_basic_bin, find_basic_view_segment_numbers (cylindrical branch) and the "
+                 "transform_bin_coordinates of all 16 SymmetryOperation_PET_CartesianGrid_* classes (loop-free, every bin, every valid "
+                 "combination of the five symmetry switches, num_views symbolic <= 4096): the operation found for a bin, applied to its "
+                 "basic bin, gives back the bin in all five coordinates; the basic bin is a fixed point of find_basic_bin and lies in the "
+                 "data; a bin that is its own basic bin gets an operation that leaves bins unchanged. Not decided: equality of float row "
+                 "values, non-negativity, transform_image_coordinates (voxel-inside-image / no duplicates), clear_cache/set_up."),
+        "note": ("assumed contracts: calculate_proj_matrix_elems_for_one_bin, apply_tof_kernel, SymmetryOperation::transform_proj_matrix_elems_for_one_bin, "
+                 "std::unordered_map; rows are abstract ids in (b); the virtual dispatch over the 16 operation classes is a generated switch "
+                 "(class list and constructor parameter order scraped and checked); flag normalisation of the constructor (90 => 180, view counts, "
+                 "TOF data => only z-shift) assumed; induction over histories is argued, not machine-checked"),
     },
     "C06": {
         "text": ("partial - decided: (a) find_basic_view_segment_numbers maps every view-segment of the data to a representative that lies in "
@@ -102,8 +108,8 @@ CLAIMED = {
     "C08": {
         "text": ("partial - the bounds clause and the schedule of the relaxation: (a) threshold_upper_lower / threshold_upper / threshold_lower "
                  "(thresholding.h, loop contracts, symbolic length, ghost element): afterwards every element equals clamp(old, min, max) exactly and "
-                 "nothing else changed - with the supporting static fact that update_estimate's last write to the image is "
-                 "threshold_upper_lower(all, 0.F, float(upper_bound)), iterates lie within [0, upper bound]; (b) the integer iteration number n used in "
+                 "nothing else changed; the block of update_estimate after the additive update (statement kernel K_ossps_clamp_tail, callee contracts) "
+                 "leaves every element equal to clamp(old, 0, (float)upper_bound): iterates lie within [0, upper bound]; (b) the integer iteration number n used in "
                  "the relaxation alpha/(1+gamma*n) (statement kernel, per number of subsets): equals the full iteration (k-1)/num_subsets of "
                  "sub-iteration k for every sub-iteration that is not the last of its full iteration; for the last one it is n+1 (KNOWN FINDING, "
                  "reported on every run), never anything else; (c) BOUNDED (sequence length <= 6, not counted as proof): after "
